@@ -7,6 +7,7 @@
 #include <carquet/carquet.h>
 #include "reader/reader_internal.h"
 #include <stdio.h>
+#include <errno.h>
 #include <fcntl.h>
 #include <stdlib.h>
 #include <string.h>
@@ -35,7 +36,7 @@ static bool do_read(carquet_column_reader_t* cr, cursor_t* q, int64_t k, bool wi
     int64_t rem = c->nlevels - q->pos, want = k < rem ? k : rem;
     uint8_t* vb = mc_exact(NULL, vs * (size_t)(k > 0 ? k : 1)); int16_t* db = mc_exact(NULL, sizeof(int16_t) * (size_t)(k > 0 ? k : 1));
     memset(vb, 0xEE, vs * (size_t)(k > 0 ? k : 1)); memset(db, 0x7f, sizeof(int16_t) * (size_t)(k > 0 ? k : 1));
-    int64_t n = carquet_column_read_batch(cr, vb, k, with_levels ? db : NULL, NULL);
+    errno = EBADF; int64_t n = carquet_column_read_batch(cr, vb, k, with_levels ? db : NULL, NULL);
     bool ok = true; char key[160];
     const char* feat = c->max_def ? "nullable" : "required";
     if (n != want) { snprintf(key, sizeof key, "column.read.count.%s", feat); mc_fail(key, "%s: read_batch(%lld) at row %lld returned %lld, expected %lld", ctx, (long long)k, (long long)q->pos, (long long)n, (long long)want); ok = false; }
@@ -158,7 +159,7 @@ static void check_batches(carquet_reader_t* rd, const rfile_t* f, const ref_cold
     int nrg = f->nrg ? f->nrg : 1; int64_t total = (int64_t)f->N * nrg, done = 0; int64_t vdone[RF_MAXC] = { 0 }; int guard = 0;
     carquet_row_batch_t* kept[128]; int nkept = 0; uint64_t kept_hash[128];
     for (;;) {
-        carquet_row_batch_t* b = NULL; carquet_status_t st = carquet_batch_reader_next(br, &b);
+        carquet_row_batch_t* b = NULL; errno = ENOENT; carquet_status_t st = carquet_batch_reader_next(br, &b);
         if (st == CARQUET_ERROR_END_OF_DATA || (st == CARQUET_OK && !b)) break;
         if (st != CARQUET_OK) { mc_fail("batch.next-error", "%s: status %d after %lld rows", ctx, st, (long long)done); break; }
         if (++guard > 4 * (int)total + 8) { mc_fail("batch.no-progress", "%s: more than %d batches", ctx, guard); carquet_row_batch_free(b); break; }
@@ -214,6 +215,7 @@ static void dump_mode(int mode, int verify, const uint8_t* img, size_t n, const 
 }
 static void dump_reader(carquet_reader_t* rd, const rfile_t* f, const ref_coldata* cols, const char* fdesc, ref_buf* d) {
     carquet_error_t err = CARQUET_ERROR_INIT; char t[128];
+    errno = ENOENT;      /* the caller's errno is whatever an unrelated earlier call left behind: successful library calls must not read it */
     snprintf(t, sizeof t, "|rows=%lld rg=%d cols=%d|", (long long)carquet_reader_num_rows(rd), carquet_reader_num_row_groups(rd), carquet_reader_num_columns(rd)); ref_buf_put(d, t, strlen(t));
     const carquet_schema_t* sc = carquet_reader_schema(rd);
     for (int i = 0; i < carquet_schema_num_elements(sc); i++) { const carquet_schema_node_t* nd = carquet_schema_get_element(sc, i); snprintf(t, sizeof t, "|el%d %s leaf%d t%d r%d tl%d d%d p%d|", i, carquet_schema_node_name(nd), carquet_schema_node_is_leaf(nd), carquet_schema_node_is_leaf(nd) ? (int)carquet_schema_node_physical_type(nd) : -1, (int)carquet_schema_node_repetition(nd), carquet_schema_node_type_length(nd), carquet_schema_node_is_leaf(nd) ? carquet_schema_node_max_def_level(nd) : -1, carquet_schema_node_is_leaf(nd) ? carquet_schema_node_max_rep_level(nd) : -1); ref_buf_put(d, t, strlen(t)); }
@@ -228,7 +230,7 @@ static void dump_reader(carquet_reader_t* rd, const rfile_t* f, const ref_coldat
             for (int j = 0; j <= np; j++) {
                 int64_t k = j < np ? parts[j] : 2; size_t vs = f->col[c].ptype == PT_BYTE_ARRAY ? sizeof(carquet_byte_array_t) : (size_t)w;
                 uint8_t* vb = mc_exact(NULL, vs * (size_t)k); int16_t* db = mc_exact(NULL, 2 * (size_t)k); memset(vb, 0, vs * (size_t)k); memset(db, 0, 2 * (size_t)k);
-                int64_t n2 = carquet_column_read_batch(cr, vb, k, db, NULL);
+                errno = ENOENT; int64_t n2 = carquet_column_read_batch(cr, vb, k, db, NULL);
                 snprintf(t, sizeof t, "|rg%d c%d comp%x read(%lld)=%lld rem%lld|", g, c, comp, (long long)k, (long long)n2, (long long)carquet_column_remaining(cr)); ref_buf_put(d, t, strlen(t));
                 if (n2 > 0) { int64_t nn = 0; for (int64_t r = 0; r < n2; r++) if (!f->col[c].opt || db[r] == 1) nn++; ref_buf_put(d, db, 2 * (size_t)n2);
                     if (f->col[c].ptype == PT_BYTE_ARRAY) { carquet_byte_array_t* ba = (carquet_byte_array_t*)vb; for (int64_t q = 0; q < nn; q++) { ref_buf_u32le(d, (uint32_t)ba[q].length); if (ba[q].length > 0 && ba[q].length < 100000) ref_buf_put(d, ba[q].data, (size_t)ba[q].length); } } else ref_buf_put(d, vb, (size_t)nn * (size_t)w); }
